@@ -289,6 +289,10 @@ func (propC14) Gen(r *Rng, run uint64, tier string) *Plan {
 
 	if sweep {
 		p.Tags["sweep"] = "all"
+		if tier == "thorough" && r.Bool(0.25) {
+			// thorough tier: every pair of single faults of a small world
+			p.Tags["sweep"] = "pairs"
+		}
 		return p
 	}
 	// Random faults: one (80%) or two (20%).
@@ -439,7 +443,7 @@ func (propC14) Expand(t *testing.T, p *Plan) []*Plan {
 		}
 		return &cp
 	}
-	if p.Tags["sweep"] != "all" {
+	if p.Tags["sweep"] != "all" && p.Tags["sweep"] != "pairs" {
 		cp := *p
 		cp.Faults = append([]Fault(nil), p.Faults...)
 		for i := range cp.Faults {
@@ -506,6 +510,28 @@ func (propC14) Expand(t *testing.T, p *Plan) []*Plan {
 		for fi := range l.Ends {
 			for _, fk := range frameKindsAll {
 				out = append(out, mk(Fault{Kind: FaultFrame, Container: oc.ID, Open: oc.OpenIdx, Frame: fi, FrameKind: fk}, "frame:"+fk, nil))
+			}
+		}
+	}
+	if p.Tags["sweep"] == "pairs" {
+		// Combine the single faults pairwise (capped): error aggregation, double
+		// failures on the cleanup path, a failure behind a failure.
+		singles := out[1:]
+		stride := 1
+		for len(singles)*len(singles)/(2*stride*stride) > 4000 {
+			stride++
+		}
+		for i := 0; i < len(singles); i += stride {
+			for j := i + 1; j < len(singles); j += stride {
+				a, b := singles[i].Faults[0], singles[j].Faults[0]
+				if a.Kind == FaultCancel || b.Kind == FaultCancel {
+					continue
+				}
+				cp := *singles[i]
+				cp.Faults = []Fault{a, b}
+				cp.Tags = baseTags()
+				cp.Tags["pos"], cp.Tags["from_sweep"] = singles[i].Tags["pos"]+"+"+singles[j].Tags["pos"], "pairs"
+				out = append(out, &cp)
 			}
 		}
 	}
